@@ -105,7 +105,7 @@ func c08Definitions(c *Ctx, ge *GuardEngine) {
 		c.Undecided("definition", "window-id-shortcut", "", "storageProofWindowID does not resolve")
 		return
 	}
-	r := req("window-id-shortcut", "consensus.(*MidState).storageProofWindowID", "%MS%.fces[…].FileContractElement.FileContract.WindowStart", opEQ, "%CH%", "a contract created or revised in this block can be proven only if its window starts at the child height (the parent block is the window-start block)", "ok:%MS%.elements[…] is true")
+	r := req("window-id-shortcut", "consensus.(*MidState).storageProofWindowID", "%MS%.fces[…].FileContractElement.FileContract.WindowStart", opEQ, "%CH%", "a contract created or revised in this block can be proven only if its window starts at the child height (the parent block is the window-start block)", "ok:%MS%.elements[…] is true", "%MS%.elements[…] < len(%MS%.fces)", "%MS%.fces[…].FileContractElement.ID == {types.FileContractID}")
 	r.Weak = true
 	ge.CheckReq(c, "definition", r, gs)
 }
